@@ -17,6 +17,9 @@ pub enum Action {
     Deliver { msg: u16, to: u16, reencode: bool },
     /// View timers fire on the nodes in `mask`.
     Timeout { mask: u16 },
+    /// The network loses what is in flight: every pool message of the given kinds not yet delivered to a node in `mask` is
+    /// marked as delivered to it without being handled (only a re-broadcast makes it deliverable again).
+    Lose { mask: u16, kinds: u8 },
     /// Block sync between two correct nodes.
     Sync { from: u16, to: u16 },
     Crash { node: u16 },
@@ -40,6 +43,9 @@ pub enum Action {
     CompleteTimeouts { lie: u8, reveal: u16 },
     /// Adversary: a Byzantine leader sends two different proposals to two sets of nodes.
     Equivocate { to_a: u16, to_b: u16 },
+    /// Adversary (adaptive): plain view changes (everybody times out, everything is delivered) are repeated, at most
+    /// `max` times, until a Byzantine validator leads the view `offset` after the most advanced one.
+    AlignByzLeader { offset: u8, max: u8 },
     /// Adversary: validly signed messages with absurd fields.
     Absurd { kind: u8, to: u16 },
     /// Adversary: votes for many distinct future views.
@@ -141,11 +147,11 @@ pub fn gen_case(ch: &mut Choices, p: &Profile) -> SimCase {
                     // admitting anything, so a fresh block is proposed for the same number; that one is certified, but only one
                     // node learns it; the others time out and the Byzantine validators back the stalest vote reported;
                     // finally every certificate that can be assembled is shown to everybody, in two orders
-                    actions.push(Action::HideQc { voters: ch.pick(&[2u8, 2, 1, 3]), reveal: 0, lie: ch.pick(&[0u8, 0, 4]) });
+                    actions.push(Action::HideQc { voters: ch.pick(&[2u8, 2, 1, 3]), reveal: 0, lie: ch.pick(&[0u8, 0, 4, 9]) });
                     if ch.chance(1, 3) {
                         actions.push(all(1));
                     }
-                    actions.push(Action::HideQc { voters: ch.pick(&[5u8, 5, 6, 4]), reveal: 1 << ch.below(6), lie: ch.pick(&[4u8, 4, 2, 1]) });
+                    actions.push(Action::HideQc { voters: ch.pick(&[5u8, 5, 6, 4]), reveal: 1 << ch.below(6), lie: ch.pick(&[4u8, 9, 7, 2, 1]) });
                     actions.push(all(2));
                     actions.push(Action::Complete { reveal: u16::MAX, alt_order: true });
                     actions.push(all(1));
@@ -158,12 +164,27 @@ pub fn gen_case(ch: &mut Choices, p: &Profile) -> SimCase {
                     }
                     // a certificate forms with few correct voters, is shown to one node, the rest times out and moves on;
                     // a Byzantine leader of the next view then tries both a legitimate and a smuggled proposal, in either order
-                    actions.push(Action::HideQc { voters: ch.pick(&[3u8, 4, 4, 5, 2]), reveal: 1 << ch.below(6), lie: ch.below(5) as u8 });
+                    // (half of the time the adversary first waits for a view whose successor it leads)
                     if ch.bool() {
-                        let (a, b) = (if ch.bool() { u16::MAX } else { ch.raw() }, if ch.bool() { u16::MAX } else { ch.raw() });
+                        actions.push(Action::AlignByzLeader { offset: 1, max: 7 });
+                    }
+                    actions.push(Action::HideQc { voters: ch.pick(&[3u8, 4, 4, 5, 2]), reveal: 1 << ch.below(6), lie: ch.below(15) as u8 });
+                    if ch.chance(2, 3) {
+                        let m = |ch: &mut Choices| match ch.below(4) {
+                            0 | 1 => u16::MAX,
+                            2 => 0,
+                            _ => ch.raw(),
+                        };
+                        let (a, b) = (m(ch), m(ch));
                         actions.push(Action::Equivocate { to_a: a, to_b: b });
                         if ch.bool() {
                             actions.push(Action::Equivocate { to_a: b, to_b: a });
+                        }
+                        if ch.chance(2, 3) {
+                            // the votes are collected and the adversary completes, announces and serves what it can before
+                            // the correct nodes had a chance to sync with each other
+                            actions.push(Action::Flush { mask: u16::MAX, kinds: 2, limit: 1000, rounds: 1 });
+                            actions.push(Action::Complete { reveal: u16::MAX, alt_order: ch.bool() });
                         }
                     }
                     actions.push(all(2));
@@ -185,7 +206,7 @@ pub fn gen_case(ch: &mut Choices, p: &Profile) -> SimCase {
                 _ => {
                     actions.push(Action::Timeout { mask: u16::MAX });
                     actions.push(Action::Flush { mask: u16::MAX, kinds: 4, limit: 1000, rounds: 1 });
-                    actions.push(Action::CompleteTimeouts { lie: ch.below(5) as u8, reveal: mask(ch) });
+                    actions.push(Action::CompleteTimeouts { lie: ch.below(15) as u8, reveal: mask(ch) });
                     actions.push(all(2));
                 }
             }
@@ -205,10 +226,11 @@ pub fn gen_case(ch: &mut Choices, p: &Profile) -> SimCase {
             continue;
         }
         let a = match ch.below(40) {
-            0..=13 => Action::Flush { mask: mask(ch), kinds: if ch.chance(3, 4) { KIND_ALL } else { ch.below(16) as u8 }, limit: ch.pick(&[1u16, 3, 10, 1000]), rounds: 1 + ch.below(3) as u8 },
+            0..=11 => Action::Flush { mask: mask(ch), kinds: if ch.chance(3, 4) { KIND_ALL } else { ch.below(16) as u8 }, limit: ch.pick(&[1u16, 3, 10, 1000]), rounds: 1 + ch.below(3) as u8 },
             14..=17 => Action::Timeout { mask: mask(ch) },
             18 | 19 => Action::Deliver { msg: ch.raw(), to: ch.raw(), reencode: ch.chance(1, 4) },
             20 => Action::Sync { from: ch.raw(), to: ch.raw() },
+            12 | 13 => Action::Lose { mask: mask(ch), kinds: if ch.bool() { KIND_ALL } else { ch.below(16) as u8 } },
             21 if p.crashes => Action::Crash { node: ch.raw() },
             22 | 23 if p.crashes => Action::Restart { node: ch.raw() },
             24 => Action::Advance { node: ch.raw(), ms: ch.pick(&[1u32, 500, 2000, 10_000]) },
@@ -216,15 +238,28 @@ pub fn gen_case(ch: &mut Choices, p: &Profile) -> SimCase {
             26 if p.crashes => Action::Persist { node: ch.raw(), k: ch.pick(&[1u16, 5, 100]) },
             27..=29 if p.byzantine => Action::Complete { reveal: if ch.bool() { 0 } else { mask(ch) }, alt_order: ch.bool() },
             30 if p.byzantine => Action::Forge { kind: ch.below(4) as u8, to: mask(ch) },
-            31 | 32 if p.byzantine => Action::CompleteTimeouts { lie: ch.below(5) as u8, reveal: mask(ch) },
+            31 | 32 if p.byzantine => Action::CompleteTimeouts { lie: ch.below(15) as u8, reveal: mask(ch) },
             33 | 34 if p.byzantine => Action::Equivocate { to_a: mask(ch), to_b: mask(ch) },
-            35 if p.byzantine => Action::HideQc { voters: ch.pick(&[3u8, 4, 4, 5, 2]), reveal: 1 << ch.below(6), lie: ch.below(5) as u8 },
+            35 if p.byzantine => Action::HideQc { voters: ch.pick(&[3u8, 4, 4, 5, 2]), reveal: 1 << ch.below(6), lie: ch.below(15) as u8 },
             36 if p.byzantine && p.absurd => Action::Absurd { kind: ch.below(6) as u8, to: mask(ch) },
             38 | 39 if p.variants => Action::Variant { msg: ch.raw(), to: ch.raw(), kind: ch.below(6) as u8, arg: ch.below(6) as u8 },
             37 if p.byzantine && p.floods => Action::Flood { byz: ch.below(4) as u8, timeouts: ch.bool(), from_view: ch.pick(&[0u32, 5, 1000]), count: ch.pick(&[3u16, 20, 60]), to: mask(ch) },
             _ => Action::Flush { mask: u16::MAX, kinds: KIND_ALL, limit: 1000, rounds: 2 },
         };
         actions.push(a);
+    }
+    if ch.chance(1, 3) {
+        // the run ends with a black-out: some nodes advance, then whatever is in flight is lost
+        if ch.bool() {
+            actions.push(Action::Flush { mask: ch.raw(), kinds: KIND_ALL, limit: 1000, rounds: 1 + ch.below(2) as u8 });
+        }
+        if ch.bool() {
+            actions.push(Action::Timeout { mask: mask(ch) });
+            if ch.bool() {
+                actions.push(Action::Timeout { mask: mask(ch) });
+            }
+        }
+        actions.push(Action::Lose { mask: u16::MAX, kinds: KIND_ALL });
     }
     let mut leaders: Vec<bool> = (0..n).map(|_| !ch.chance(1, 6)).collect();
     let force = ch.below(n);
@@ -280,6 +315,8 @@ pub struct RunInfo {
     pub absurd_msgs: usize,
     pub variants: usize,
     pub forged: usize,
+    pub lost: usize,
+    pub served_blocks: usize,
     pub model_compared: u64,
     pub kinds_matrix: std::collections::BTreeSet<String>,
 }
@@ -355,6 +392,16 @@ pub async fn apply(w: &mut World, a: &Action, info: &mut RunInfo) -> Result<(), 
                 w.reap().await;
             }
         }
+        Action::Lose { mask, kinds } => {
+            for i in nodes_in(w, *mask) {
+                for m in 0..w.pool.len() {
+                    if kinds & kind_bit(kind_of(&w.pool[m].msg)) != 0 && !w.node(i).delivered.contains(&m) {
+                        w.lose(i, m);
+                        info.lost += 1;
+                    }
+                }
+            }
+        }
         Action::Timeout { mask } => {
             for i in nodes_in(w, *mask) {
                 if w.ready(i) {
@@ -410,6 +457,22 @@ pub async fn apply(w: &mut World, a: &Action, info: &mut RunInfo) -> Result<(), 
                 }
             }
             w.progress().await;
+            // the Byzantine validators are also block-sync peers: they serve every certified block whose payload they know
+            // (their own smuggled payloads first) to the nodes that still miss that number
+            if !w.byz_ids().is_empty() {
+                let blocks = w.servable_blocks();
+                for i in nodes_in(w, *reveal) {
+                    for b in &blocks {
+                        let next = w.node(i).run.as_ref().map(|r| r.mgr.queued().next());
+                        if next == Some(b.number()) {
+                            if w.offer_block(i, b.clone()).await == Some(true) {
+                                info.served_blocks += 1;
+                            }
+                        }
+                    }
+                }
+            }
+            w.progress().await;
             w.reap().await;
         }
         Action::Forge { kind, to } => {
@@ -432,16 +495,36 @@ pub async fn apply(w: &mut World, a: &Action, info: &mut RunInfo) -> Result<(), 
         }
         Action::HideQc { voters, reveal, lie } => {
             // a. the leader of the most advanced view proposes (a Byzantine leader sends one proposal)
+            //    (if the nodes are spread over several views, everything except the newest proposals is delivered first, so that the
+            //    tactic starts from a common view)
             let correct = w.correct();
-            for i in &correct {
-                if w.ready(*i) {
-                    w.propose(*i).await;
+            let mut top_view = 0;
+            let mut proposal = None;
+            for _ in 0..4 {
+                for i in &correct {
+                    if w.ready(*i) {
+                        w.propose(*i).await;
+                    }
                 }
-            }
-            let top_view = correct.iter().filter_map(|i| w.node(*i).snapshot().map(|s| s.view.0)).max().unwrap_or(0);
-            let mut proposal = (0..w.pool.len()).rev().find(|m| kind_of(&w.pool[*m].msg) == Kind::Proposal && crate::sim::view_of(&w.pool[*m].msg) == top_view);
-            if proposal.is_none() && w.cfg.byz[w.leader(top_view)] {
-                proposal = w.equivocate().first().copied().filter(|m| crate::sim::view_of(&w.pool[*m].msg) == top_view);
+                top_view = correct.iter().filter_map(|i| w.node(*i).snapshot().map(|s| s.view.0)).max().unwrap_or(0);
+                proposal = (0..w.pool.len()).rev().find(|m| kind_of(&w.pool[*m].msg) == Kind::Proposal && crate::sim::view_of(&w.pool[*m].msg) == top_view);
+                if proposal.is_none() && w.cfg.byz[w.leader(top_view)] {
+                    proposal = w.equivocate().first().copied().filter(|m| crate::sim::view_of(&w.pool[*m].msg) == top_view);
+                }
+                if proposal.is_some() {
+                    break;
+                }
+                for i in &correct {
+                    let mut m = 0;
+                    while m < w.pool.len() {
+                        let newest_proposal = kind_of(&w.pool[m].msg) == Kind::Proposal && crate::sim::view_of(&w.pool[m].msg) >= top_view;
+                        if !newest_proposal && !w.node(*i).delivered.contains(&m) && w.ready(*i) {
+                            w.deliver(*i, m, false).await;
+                        }
+                        m += 1;
+                    }
+                }
+                w.progress().await;
             }
             if let Some(p) = proposal {
                 // b. it reaches exactly `voters` correct nodes (those that are in that view)
@@ -536,6 +619,34 @@ pub async fn apply(w: &mut World, a: &Action, info: &mut RunInfo) -> Result<(), 
                     info.equivocation_delivered = true;
                 }
                 w.progress().await;
+                w.reap().await;
+            }
+        }
+        Action::AlignByzLeader { offset, max } => {
+            for _ in 0..*max {
+                let correct = w.correct();
+                let top_view = correct.iter().filter_map(|i| w.node(*i).snapshot().map(|s| s.view.0)).max().unwrap_or(0);
+                if w.cfg.byz[w.leader(top_view + *offset as u64)] {
+                    break;
+                }
+                for i in &correct {
+                    if w.ready(*i) {
+                        w.timer(*i).await;
+                    }
+                }
+                w.progress().await;
+                for _ in 0..2 {
+                    for i in &correct {
+                        let mut m = 0;
+                        while m < w.pool.len() {
+                            if !w.node(*i).delivered.contains(&m) && w.ready(*i) {
+                                w.deliver(*i, m, false).await;
+                            }
+                            m += 1;
+                        }
+                    }
+                    w.progress().await;
+                }
                 w.reap().await;
             }
         }
